@@ -294,8 +294,7 @@ def float_jvp(cfg, env):
     fa = cfg.float_args(env)
     k = cfg.argnum
     f = lambda x: cfg.call(anp, *subst(fa, k, x))
-    denv = {n[1:]: val for n, val in env.items() if n.startswith("dx%d" % k)}
-    v = _float_arg_like(cfg, k, denv)
+    v = cfg.float_dir(k, env, "d")
     with warnings.catch_warnings():
         warnings.simplefilter("ignore")
         yv, tan = core.make_jvp(f, fa[k])(v)
@@ -306,11 +305,7 @@ def float_dir_deriv(cfg, env, dname="d", h=1e-4, one_sided=0):
     """Richardson-extrapolated central difference of NumPy's own function along direction d (float64)."""
     k = cfg.argnum
     fa = cfg.float_args(env)
-    denv = {}
-    for n, val in env.items():
-        if n.startswith(dname + "x%d" % k):
-            denv[n[len(dname):]] = val
-    d = _float_arg_like(cfg, k, denv)
+    d = cfg.float_dir(k, env, dname)
 
     def F(t):
         with warnings.catch_warnings():
@@ -343,8 +338,7 @@ def _float_arg_like(cfg, k, env):
 
 def dvec(cfg, env, dname="d"):
     k = cfg.argnum
-    denv = {n[len(dname):]: v for n, v in env.items() if n.startswith(dname + "x%d" % k)}
-    return flat_float(_float_arg_like(cfg, k, denv))
+    return flat_float(cfg.float_dir(k, env, dname))
 
 
 def dot(a, b):
@@ -468,8 +462,7 @@ def replay_vjp(cfg, env, tol=1e-5):
     xs = structure(cfg.float_args(env)[k])
     if structure(got)[:2] != xs[:2]:
         return True, "cotangent structure %s != argument structure %s" % (structure(got), xs)
-    denv = {n[1:]: v for n, v in env.items() if n.startswith("dx%d" % k)}
-    d = _float_arg_like(cfg, k, denv)
+    d = cfg.float_dir(k, env, "d")
     lhs = cdot(got, d)
     try:
         fd = float_dir_deriv(cfg, env)
@@ -987,8 +980,7 @@ def replay_kink(cfg, p, model, h=1e-6, tol=1e-4):
     env = _Default(model_env(model, names, rng), rng)
     k = cfg.argnum
     fa = cfg.float_args(env)
-    denv = {n[1:]: v for n, v in env.items() if n.startswith("dx%d" % k)}
-    d = _float_arg_like(cfg, k, denv)
+    d = cfg.float_dir(k, env, "d")
     anp = enga.anp
     try:
         with warnings.catch_warnings():
@@ -2122,35 +2114,53 @@ def check_vspace(case, tier="quick"):
     out = Outcome(cfg)
     t0 = time.time()
 
-    def body():
-        x, y, z = (_build_sym(spec, n_, None) for n_ in ("x", "y", "z"))
-        a, b = sym("a"), sym("b")
+    def axioms(x, y, z, a, b):
         vs = vspace(x)
         E = []
 
-        def eq(name, lhs, rhs):
-            E.append((name, lhs, rhs))
+        def eq(name, fn):
+            try:
+                lhs, rhs = fn()
+                E.append((name, lhs, rhs))
+            except (Unsupported, Infeasible, PathLimit):
+                raise
+            except Exception as e:
+                E.append((name, e, None))
 
         zero = vs.zeros()
-        eq("zeros is the additive identity", vs.add(x, zero), x)
-        eq("zeros is a left identity", vs.add(zero, x), x)
-        eq("addition commutes", vs.add(x, y), vs.add(y, x))
-        eq("addition associates", vs.add(vs.add(x, y), z), vs.add(x, vs.add(y, z)))
-        eq("mut_add on a fresh copy agrees with add", vs.mut_add(vs.add(x, vs.zeros()), y), vs.add(x, y))
-        eq("mut_add(None, x) == x", vs.mut_add(None, x), x)
-        eq("scalar_mul distributes over vectors", vs.scalar_mul(vs.add(x, y), a), vs.add(vs.scalar_mul(x, a), vs.scalar_mul(y, a)))
-        eq("scalar_mul distributes over scalars", vs.scalar_mul(x, a + b), vs.add(vs.scalar_mul(x, a), vs.scalar_mul(x, b)))
-        eq("scalar_mul composes", vs.scalar_mul(vs.scalar_mul(x, a), b), vs.scalar_mul(x, a * b))
-        eq("1 * x == x", vs.scalar_mul(x, 1.0), x)
-        eq("inner product symmetric", vs.inner_prod(x, y), vs.inner_prod(y, x))
-        eq("inner product real-bilinear", vs.inner_prod(vs.add(vs.scalar_mul(x, a), vs.scalar_mul(y, b)), z), a * vs.inner_prod(x, z) + b * vs.inner_prod(y, z))
-        eq("covector is an involution", vs.covector(vs.covector(x)), x)
+        eq("zeros is the additive identity", lambda: (vs.add(x, zero), x))
+        eq("zeros is a left identity", lambda: (vs.add(zero, x), x))
+        eq("zeros + y == y (y built in another key order)", lambda: (vs.add(zero, y), y))
+        eq("addition commutes", lambda: (vs.add(x, y), vs.add(y, x)))
+        eq("addition associates", lambda: (vs.add(vs.add(x, y), z), vs.add(x, vs.add(y, z))))
+        eq("mut_add on a fresh copy agrees with add", lambda: (vs.mut_add(vs.add(x, vs.zeros()), y), vs.add(x, y)))
+        eq("mut_add(None, x) == x", lambda: (vs.mut_add(None, x), x))
+        eq("scalar_mul distributes over vectors", lambda: (vs.scalar_mul(vs.add(x, y), a), vs.add(vs.scalar_mul(x, a), vs.scalar_mul(y, a))))
+        eq("scalar_mul distributes over scalars", lambda: (vs.scalar_mul(x, a + b), vs.add(vs.scalar_mul(x, a), vs.scalar_mul(x, b))))
+        eq("scalar_mul composes", lambda: (vs.scalar_mul(vs.scalar_mul(x, a), b), vs.scalar_mul(x, a * b)))
+        eq("1 * x == x", lambda: (vs.scalar_mul(x, 1.0), x))
+        eq("inner product symmetric", lambda: (vs.inner_prod(x, y), vs.inner_prod(y, x)))
+        eq("inner product real-bilinear", lambda: (vs.inner_prod(vs.add(vs.scalar_mul(x, a), vs.scalar_mul(y, b)), z), a * vs.inner_prod(x, z) + b * vs.inner_prod(y, z)))
+        eq("inner product is the key-wise / entry-wise sum of products", lambda: (vs.inner_prod(x, y), _ref_inner(x, y)))
+        eq("add is the key-wise / entry-wise sum", lambda: (vs.add(x, y), _ref_add(x, y)))
+        eq("covector is an involution", lambda: (vs.covector(vs.covector(x)), x))
+
+        def complete():
+            acc = vs.zeros()
+            for e in vs.standard_basis():
+                acc = vs.add(acc, vs.scalar_mul(e, vs.inner_prod(x, e)))
+            return acc, x
+
+        eq("standard basis is complete: sum <x,e_i> e_i == x", complete)
+        return vs, zero, E
+
+    def body():
+        x, y, z = (_build_sym(spec, n_, None) for n_ in ("x", "y", "z"))
+        y = _reverse_dicts(y)  # same keys, different insertion order: vector-space operations pair leaves by KEY
+        a, b = sym("a"), sym("b")
+        vs, zero, E = axioms(x, y, z, a, b)
         basis = list(vs.standard_basis())
         n = int(vs.size)
-        acc = vs.zeros()
-        for e in basis:
-            acc = vs.add(acc, vs.scalar_mul(e, vs.inner_prod(x, e)))
-        eq("standard basis is complete: sum <x,e_i> e_i == x", acc, x)
         gram_bad = []
         for i, ei in enumerate(basis):
             for j, ej in enumerate(basis):
@@ -2160,6 +2170,30 @@ def check_vspace(case, tier="quick"):
         xx = vs.inner_prod(x, x)
         return {"tag": "ok", "E": E, "n": n, "nbasis": len(basis), "gram_bad": gram_bad, "xx": xx, "x": x, "args": [x, y, z],
                 "same_vs": vspace(x) == vspace(y), "zero_struct": _shape_struct(zero) == _shape_struct(x)}
+
+    def float_fails():
+        """the same axioms on random float64 leaves (real NumPy arrays): names that fail"""
+        from .enga import _build_float
+
+        rng = random.Random(SEED + 5)
+        envs = [_Default({}, rng) for _ in range(3)]
+        x, y, z = (_build_float(spec, "x", e_) for e_ in envs)
+        y = _reverse_dicts(y)
+        bad = []
+        try:
+            with warnings.catch_warnings():
+                warnings.simplefilter("ignore")
+                _, _, E = axioms(x, y, z, 0.75, -1.25)
+            for name, lhs, rhs in E:
+                if isinstance(lhs, Exception):
+                    bad.append(name)
+                    continue
+                la, lb = flat_float(lhs), flat_float(rhs)
+                if len(la) != len(lb) or not close(la, lb, 1e-9, 1e-12):
+                    bad.append(name)
+        except Exception as e:
+            bad.append("float64 run raised %s" % exc_sig(e))
+        return bad
 
     paths = explore_cfg(cfg, out, body, opts)
     if paths is None:
@@ -2181,6 +2215,9 @@ def check_vspace(case, tier="quick"):
         if not res["zero_struct"]:
             fails.append("zeros() does not have the value's structure")
         for name, lhs, rhs in res["E"]:
+            if isinstance(lhs, Exception):
+                fails.append("%s: raised %s" % (name, exc_sig(lhs)))
+                continue
             if structure(lhs)[:2] != structure(rhs)[:2] and not isinstance(lhs, (S, CS)):
                 fails.append("%s: structure %s vs %s" % (name, structure(lhs), structure(rhs)))
                 continue
@@ -2211,14 +2248,56 @@ def check_vspace(case, tier="quick"):
                 out.status, out.detail = "inconclusive", "solver unknown on positive definiteness"
                 break
     if out.status is None:
-        if fails:
-            out.status, out.detail = "violation", "; ".join(fails[:5])
+        ff = float_fails()
+        confirmed = [f for f in fails if f.split(":")[0] in ff or ":" not in f]
+        if confirmed:
+            out.status, out.detail = "violation", "; ".join(confirmed[:5]) + " | float64: fails " + ", ".join(ff[:4])
             out.cex = {"env": {}, "mode": "vspace"}
+        elif fails:
+            out.status, out.detail = "error", "axioms fail on symbolic vectors only: " + "; ".join(fails[:4])
+        elif ff:
+            out.status, out.detail = "error", "axioms fail on float64 vectors only: " + ", ".join(ff[:4])
         else:
             out.status = "holds"
             out.validated += 1
     out.time = time.time() - t0
     return out
+
+
+def _ref_add(x, y):
+    """independent reference: leaf-wise sum, dict leaves paired by KEY"""
+    if isinstance(x, dict):
+        return {k_: _ref_add(x[k_], y[k_]) for k_ in x}
+    if isinstance(x, (tuple, list)):
+        return type(x)(_ref_add(a_, b_) for a_, b_ in zip(x, y))
+    return x + y
+
+
+def _ref_inner(x, y):
+    """independent reference: real inner product = sum over leaves (by key) of re*re + im*im"""
+    if isinstance(x, dict):
+        return sum((_ref_inner(x[k_], y[k_]) for k_ in x), 0.0)
+    if isinstance(x, (tuple, list)):
+        return sum((_ref_inner(a_, b_) for a_, b_ in zip(x, y)), 0.0)
+    tot = 0.0
+    for a_, b_ in zip(leaves(x), leaves(y)):
+        if isinstance(a_, (S, CS)) or isinstance(b_, (S, CS)):
+            from .sym import re_im
+            ar, ai = re_im(a_)
+            br, bi = re_im(b_)
+            tot = tot + ar * br + ai * bi
+        else:
+            a_, b_ = complex(a_), complex(b_)
+            tot = tot + a_.real * b_.real + a_.imag * b_.imag
+    return tot
+
+
+def _reverse_dicts(v):
+    if isinstance(v, dict):
+        return {k_: _reverse_dicts(v[k_]) for k_ in reversed(list(v))}
+    if isinstance(v, (tuple, list)):
+        return type(v)(_reverse_dicts(e) for e in v)
+    return v
 
 
 def _shape_struct(a):
